@@ -1,8 +1,8 @@
 CONSTANTS
   Waiters = {1, 2, 3}
-  Start = 14
+  Start = 6
   Mod = 16
-  Signed = FALSE
+  Signed = TRUE
   MaxOps = 0
   Defects = {}
 SPECIFICATION TraceSpec
